@@ -19,7 +19,7 @@ func init() {
 		ID:          "C01",
 		Level:       "other",
 		Run:         runC01,
-		Explanation: "Umbrella necessary conditions, per variant: R01.1 every normal return of Run is preceded by the fold of speculative register state that matches how the write unit writes (Commit() iff it uses TransactionWriteRegister; RATCommit() then RATFlush(), with InitRAT() before the main loop, iff it uses TransactionRATWrite) and by the cache write-back (R05.1); R01.2 style consistency (NewContext's rename flag is true iff the write unit uses TransactionRATWrite and branch resolution uses RATRollback/RATCommit; no variant mixes direct, transaction and rename-table writes); R01.3 sibling agreement of the architectural step among the 13 interpreters of Execution (register write under RegisterChange, else memory write under MemoryChange; PcChange ? NextPc : pc+4; instructions fetched under pc/4 < len; Run is fed the bytes at MemoryRead's addresses, never nil; Run contains no direct store to architectural state and no goto); R01.4 branch/memory classification tables equal the sets derived from the opcode implementations and declared register sets are exact; R01.5 Context() returns the context the units were built with; R01.6 nothing past a ret is decoded; R01.7 every write-unit commit is behind the sequence filter with a strict comparison (the instruction that caused a flush is itself written); R01.8 taken -> rollback with the branch's own id, not taken -> commit; R01.10 the jump-resolution notification redirects the fetch unconditionally; R01.11 an inner flush replaces the pending restart pc; R01.13 the control unit neither loses nor duplicates an instruction (taken from the bus and not dispatched -> queued; read from the queue and dispatched -> removed, only then); R01.12 the stepping primitive all units of MVP-6.x..8.0 are written with (common/coroutine) equals its reference model; R01.9 the transactional register state and the rename table equal the reference model operation by operation. Does not decide the equivalence of final state with sequential execution (a value/schedule property of the whole machine). R01.14 every path to the run step of an instruction that reads memory first assigns the field handed to Run as its memory bytes. R01.15 every per-line table of the memory system is keyed through the alignment function of its own line size; R01.16 Forward(f) of every instruction stores f unconditionally in the slot its register reads consult; R01.17 the control unit's dispatch decision equals its reference model as a decision procedure (polarity of every guard). R01.18 the program-order tag given at decode is strictly increasing in decode order (the rename table, the write-unit filter and the rollbacks order by it).",
+		Explanation: "Umbrella necessary conditions, per variant: R01.1 every normal return of Run is preceded by the fold of speculative register state that matches how the write unit writes (Commit() iff it uses TransactionWriteRegister; RATCommit() then RATFlush(), with InitRAT() before the main loop, iff it uses TransactionRATWrite) and by the cache write-back (R05.1); R01.2 style consistency (NewContext's rename flag is true iff the write unit uses TransactionRATWrite and branch resolution uses RATRollback/RATCommit; no variant mixes direct, transaction and rename-table writes); R01.3 sibling agreement of the architectural step among the 13 interpreters of Execution (register write under RegisterChange, else memory write under MemoryChange; PcChange ? NextPc : pc+4; instructions fetched under pc/4 < len; Run is fed the bytes at MemoryRead's addresses, never nil; Run contains no direct store to architectural state and no goto); R01.4 branch/memory classification tables equal the sets derived from the opcode implementations and declared register sets are exact; R01.5 Context() returns the context the units were built with; R01.6 nothing past a ret is decoded; R01.7 every write-unit commit is behind the sequence filter with a strict comparison (the instruction that caused a flush is itself written); R01.8 taken -> rollback with the branch's own id, not taken -> commit; R01.10 the jump-resolution notification redirects the fetch unconditionally; R01.11 an inner flush replaces the pending restart pc; R01.13 the control unit neither loses nor duplicates an instruction (taken from the bus and not dispatched -> queued; read from the queue and dispatched -> removed, only then); R01.12 the stepping primitive all units of MVP-6.x..8.0 are written with (common/coroutine) equals its reference model; R01.9 the transactional register state and the rename table equal the reference model operation by operation. Does not decide the equivalence of final state with sequential execution (a value/schedule property of the whole machine). R01.14 every path to the run step of an instruction that reads memory first assigns the field handed to Run as its memory bytes. R01.15 every per-line table of the memory system is keyed through the alignment function of its own line size; R01.16 Forward(f) of every instruction stores f unconditionally in the slot its register reads consult; R01.17 the control unit's dispatch decision equals its reference model as a decision procedure (polarity of every guard). R01.18 the program-order tag given at decode is strictly increasing in decode order (the rename table, the write-unit filter and the rollbacks order by it). R01.19 the function that dispatches an instruction answers true after it did and false when it left before (a wrong answer dispatches the instruction twice or loses it).",
 		Assumptions: []string{"the other properties' rules (C02-C16) cover the narrower clauses"},
 		Trusted:     []string{"go/types", "role resolution"},
 	})
@@ -183,6 +183,8 @@ func runC01(r *Run) {
 	importRules(r, runC05, map[string]string{"R05.6": "R01.15"})
 	r.floor("R01.16", 45)
 	ruleForwardSetters(r, "R01.16")
+	r.floor("R01.19", 6)
+	ruleDispatchTruthful(r, "R01.19")
 	r.floor("R01.18", 1)
 	ruleTagMonotone(r, "R01.18")
 	r.floor("R01.17", 7)
